@@ -61,7 +61,7 @@ inductive RecvRes | ok | err (code : Int) | multi
   deriving DecidableEq, Repr
 
 /-- what the checker function returns (`multi` = the very `MultiRecvErr` value). -/
-inductive Verdict | accept | reject (code : Int) | multi
+inductive Verdict | accept | reject (code : Int) | multi | panic   -- panic: the checker function panics (recovered by the PostAccept stage runner: 500, no AUTH_REPLY)
   deriving DecidableEq, Repr
 
 /-- program counter of the accepting goroutine (`ServeConn` / the goroutine of `serveListener`). -/
@@ -187,6 +187,7 @@ def verdictCode : Verdict → Int
   | .accept => 0
   | .reject c => c
   | .multi => 500
+  | .panic => 500
 
 def evRecvOnce (s : St) (timeout : Bool) : Option St :=
   if s.acc != .checker then none else
@@ -218,6 +219,7 @@ def evSendReply (s : St) (wcode : Int) : Option St :=
   | .reply v =>
     -- `PreSend` refuses outside `statusPreparing`
     let w : Int := if s.status != .preparing then 1 else wcode
+    if v == .panic then some { s with acc := .decided 500 } else   -- no PreSend is reached
     let st : Int := if v == .multi then 500 else if w != 0 then w else verdictCode v
     some { s with acc := .decided st,
                   out := if w == 0 then s.out ++ [.authReply (verdictCode v)] else s.out }
